@@ -198,8 +198,14 @@ OPTION_SETS = [
     dict(has_idx=False, hash_crc32=True, has_cache_bits=False),
     dict(has_idx=True, hash_crc32=True, has_cache_bits=False),
     dict(has_idx=True, hash_crc32=True, has_cache_bits=True),
+    # cache bits requested WITHOUT the index they live in: whatever the library emits for this request has to be a conforming bag too
+    # (TON's reader refuses has_cache_bits without has_idx; the library implies the index since fix 30c95bd)
+    dict(has_idx=False, hash_crc32=False, has_cache_bits=True),
+    dict(has_idx=False, hash_crc32=True, has_cache_bits=True),
 ]
 
 
 def opt_name(o):
+    if o['has_cache_bits'] and not o['has_idx']:
+        return ('crc+' if o['hash_crc32'] else '') + 'cache-without-idx'
     return ('idx' if o['has_idx'] else '') + ('+crc' if o['hash_crc32'] else '') + ('+cache' if o['has_cache_bits'] else '') or 'plain'
